@@ -61,7 +61,8 @@ Fixpoint ty_compat (a b : ty) : bool :=
   end.
 
 (* the operator table (validateBinaryType), with the result type the evaluator
-   really produces: [] + a : type of a;  a + [] : type of a;  [] * n : [] *)
+   really produces: [] + a : type of a;  a + [] : type of a.  ([] * n, which
+   the parser types as num, and slices of the untyped [] are not accepted.) *)
 Definition bin_ty (op : binop) (a b : ty) : option ty :=
   match op with
   | BPlus =>
@@ -77,7 +78,7 @@ Definition bin_ty (op : binop) (a b : ty) : option ty :=
   | BAsterisk =>
       match a, b with
       | TNum, TNum => Some TNum
-      | TArr _, TNum | TEmptyArr, TNum => Some a
+      | TArr _, TNum => Some a
       | _, _ => None
       end
   | BLt | BGt | BLtEq | BGtEq =>
@@ -288,7 +289,7 @@ Fixpoint ety (F : list funcdef) (G : tyenv) (e : expr) {struct e} : option ty :=
       match ety F G l with
       | Some a =>
           match a with
-          | TArr _ | TEmptyArr | TStr => if ty_eqb a t && etyo lo && etyo hi then Some t else None
+          | TArr _ | TStr => if ty_eqb a t && etyo lo && etyo hi then Some t else None
           | _ => None
           end
       | None => None
